@@ -245,7 +245,7 @@ def replay_chunk(args):
                 continue
             seen.add(key)
             if len(res["fails"]) < 200:
-                res["fails"].append({"key": key, "what": what, "bytes": beh["bytes"]})
+                res["fails"].append({"key": key, "what": what, "replayer": "c14.replay_elf", "behaviour": beh})
         res["sigs"].add(signature(beh))
         if res["sample"] is None:
             res["sample"] = {"cls": beh["cls"], "ord": beh["ord"], "size": len(beh["bytes"]),
